@@ -248,6 +248,7 @@ Verdict(pre, line, post) ==
               \cup F("ext.archive.readLoop", ReadLoopOk(pre, line)),
      ex |-> ReadEx(line) \cup E("C18", NewSnaps(pre.kinds[line.kind], post.kinds[line.kind]) # {})
             \cup E("cut", line.crashed)
+            \cup E("fault", line.fault)       \* a refused write (server error) instead of a crash
             \cup E("boundary", Boundary(pre, line))
             \cup E("scheduledOld", line.kind = "trace" /\ \E e \in pre.kinds["trace"].live :
                      e.inst \in Through(pre, line, post) /\ e.ts + line.expiry < pre.now)
